@@ -330,12 +330,11 @@ def _get_spline_mat_inv(x: torch.Tensor, bc_type: str):
     diag = (dxinv[..., :-1] + dxinv[..., 1:]) * 2  # (*BX,nr)
     offdiag = dxinv0  # (*BX,nr-1)
     spline_mat = torch.zeros(matshape, dtype=dtype, device=device)
-    spdiag = spline_mat.diagonal(dim1=-2, dim2=-1)  # (*BX, nr)
-    spudiag = spline_mat.diagonal(offset=1, dim1=-2, dim2=-1)
-    spldiag = spline_mat.diagonal(offset=-1, dim1=-2, dim2=-1)
-    spdiag[..., :] = diag
-    spudiag[..., :] = offdiag
-    spldiag[..., :] = offdiag
+    # every view is taken right before it is written to (a view taken before
+    # the matrix starts to require grad cannot be written in-place afterwards)
+    spline_mat.diagonal(dim1=-2, dim2=-1)[..., :] = diag  # (*BX, nr)
+    spline_mat.diagonal(offset=1, dim1=-2, dim2=-1)[..., :] = offdiag
+    spline_mat.diagonal(offset=-1, dim1=-2, dim2=-1)[..., :] = offdiag
 
     # construct the matrix on the right hand side
     dxinv2 = (dxinv * dxinv) * 3
@@ -343,12 +342,9 @@ def _get_spline_mat_inv(x: torch.Tensor, bc_type: str):
     udiagr = dxinv2[..., 1:-1]
     ldiagr = -udiagr
     matr = torch.zeros(matshape, dtype=dtype, device=device)
-    matrdiag = matr.diagonal(dim1=-2, dim2=-1)
-    matrudiag = matr.diagonal(offset=1, dim1=-2, dim2=-1)
-    matrldiag = matr.diagonal(offset=-1, dim1=-2, dim2=-1)
-    matrdiag[..., :] = diagr
-    matrudiag[..., :] = udiagr
-    matrldiag[..., :] = ldiagr
+    matr.diagonal(dim1=-2, dim2=-1)[..., :] = diagr
+    matr.diagonal(offset=1, dim1=-2, dim2=-1)[..., :] = udiagr
+    matr.diagonal(offset=-1, dim1=-2, dim2=-1)[..., :] = ldiagr
 
     # modify the matrices according to the boundary conditions
     if bc_type == "natural":
